@@ -143,7 +143,9 @@ Section Eval.
     | OMul => RV (VI c (wrap c (x * y)))
     | ODiv => if y =? 0 then RErr else RV (VI c (wrap c (Z.quot x y)))
     | OMod => if y =? 0 then RErr else RV (VI c (x mod y))           (* sign of the divisor  *)
-    | OFmod => if y =? 0 then RErr else RV (VI c (Z.rem x y))        (* sign of the dividend *)
+    | OFmod => if y =? 0 then RErr                                  (* sign of the dividend; onnxruntime *)
+               else if (Z.abs x <=? 2 ^ 53) && (Z.abs y <=? 2 ^ 53)  (* computes it with C fmod on doubles  *)
+               then RV (VI c (Z.rem x y)) else RUnspec
     | OPow => if y <? 0 then RUnspec else RV (VI c (wrap c (x ^ y)))
     | OBitAnd => RV (VI c (wrap c (Z.land x y)))
     | OBitOr => RV (VI c (wrap c (Z.lor x y)))
@@ -227,7 +229,12 @@ Section Eval.
     | Op2 o a b => bind (eval a) (fun x => bind (eval b) (fun y => eval_op2 o x y))
     | Where c a b =>
         bind (eval c) (fun cv => bind (eval a) (fun x => bind (eval b) (fun y =>
-          match cv with VB t => RV (if t then x else y) | _ => RErr end)))
+          match cv with
+          | VB true => RV (match x with                      (* onnxruntime's Where returns +0 for a *)
+                           | VF c (S754_zero _) => VF c (S754_zero false)   (* selected -0 of the true branch *)
+                           | _ => x end)
+          | VB false => RV y
+          | _ => RErr end)))
     | Clip x l h =>
         bind (eval x) (fun xv => bind (eval l) (fun lv => bind (eval h) (fun hv =>
           match xv, lv, hv with
